@@ -1,20 +1,41 @@
 /-
   C06 — results depend only on the arguments; reruns are bit-identical; the operator is left untouched.
 
-  Orchestration level (this file, all kernels, all states, all histories): `init(v)` followed by `compute(args)` gives the same
-  outcome, eigenvalues, eigenvectors, iteration count and operation count from ANY two object states — a freshly constructed
-  solver, one reused after any history (including runs that did not converge or threw), or a second solver — provided the kernels
-  read only the part of the factorization object that the factorization's own `init` rebuilds (`Orch.Respects K R`; discharged for
-  the concrete Lanczos/Arnoldi models in `Proofs/FacFootprint*.lean` as far as they are built, and otherwise validated by the
-  bit-level correspondence on reused objects).  Bit-identity follows because every model function is a function: equal inputs give
-  equal outputs (determinism of each hardware operation is in the trusted base).
-
-  Seed purity of the default start vector / restart vectors is `c19_*` (C19) on the source-translated generator.
-  The "operator left untouched" clause is about operator-side state (the shift installed at construction); it is decided by the
-  operator-state model and correspondence in the C06 check, see `c06_op_*` below once the complex-shift model exists.
+  1. Orchestration level (all kernels, all states, all histories): `init(v)` followed by `compute(args)` gives the same outcome,
+     eigenvalues, eigenvectors, iteration count and operation count from ANY two object states — a freshly constructed solver, one
+     reused after any history (including runs that did not converge or threw), or a second solver — provided the kernels read only
+     the part of the factorization object that the factorization's own `init` rebuilds (`Orch.Respects K R`):
+     `c06_init_total`, `c06_history_independent`, `c06_fresh_vs_reused`.
+  2. The hypothesis is DISCHARGED for the numeric kernel record of the symmetric family (`HermSolver.hermKern`: the executable
+     Lanczos / TridiagQR / TridiagEigen models that the driver runs bit for bit against `SymEigsSolver`/`SymEigsShiftSolver`) in
+     `Proofs/C06Footprint.lean` (`herm_respects`), giving the UNCONDITIONAL `c06_herm_*` theorems: every operator, every
+     (n, nev, ncv), every pair of object states carrying the constructor's constants (in particular: after every two histories),
+     every argument tuple.  Bit-identity follows because every model function is a function: equal inputs give equal outputs
+     (determinism of each hardware operation is in the trusted base).  The trace counters (`nexpand`, `nreorth`) are inert
+     (`c06_trace_counters_inert`).  The general family's numeric record (`GenSolver.genKern`) does not exist yet: for it the
+     footprint lemmas of `Arnoldi.factorize_from` are proved (`arnoldi_factorize_erase`) but no kernel record is instantiated;
+     those classes are covered by (1) and by the implementation-level bitwise oracle.
+     The one place where the model is NOT a transliteration — `Arnoldi.init` zero-fills `V` while the C++ `resize()` keeps the stale
+     columns >= 1 of a reused object — is closed by `c06_stale_basis_columns_harmless`: `factorize_from` writes every column
+     before reading it, so the C++-faithful `init` and the model's give the identical object after the first factorization.
+  3. Two solvers over one operator (`c06_two_solvers_one_op`): in any interleaving of calls on two solver objects built over the same
+     operator value each object evolves as if the other did not exist, and the observed pair agrees with a fresh solver.
+  4. Operator-side state (`Model/OpShift.lean`): the installed shift after any history of `init`/`compute` calls equals the
+     constructor's for the real-shift classes unconditionally (`c06_op_shift_real`) and for `GenEigsComplexShiftSolver` as the code is
+     now whenever the USER'S operator does not throw inside the root-selection probe (`c06_op_shift_complex`); the pre-repair code is
+     refuted on the model (`example` below: F3), and a throw of the user's operator inside the probe leaves the probe shift
+     installed (`c06_op_shift_complex_throw_in_probe`: full-strength clause false in that corner, see the comment there).
+  5. Structural facts regenerated from the headers on every run: every random generator is a non-static local seeded by a
+     constant expression (`c06_seed_pure`), no variable with static storage, and the only `mutable` members are the scratch
+     caches that are written before they are read (`c06_no_hidden_state`).
 -/
 import SpectraVerif.Proofs.OrchNonint
+import SpectraVerif.Proofs.C06Herm
+import SpectraVerif.Proofs.C06OpShift
+import SpectraVerif.Proofs.C06StaleV
 import SpectraVerif.Properties.C05
+import SpectraVerif.Gen.RandSites
+import SpectraVerif.Gen.Footprint
 
 namespace C06
 open Orch
@@ -70,10 +91,311 @@ example : Respects C05.toyK (fun a b => a = b) :=
     assemble := fun _ _ _ h => by subst h; rfl }
 
 /--
-  What does NOT hold (and is not claimed): `compute()` NOT preceded by `init()` depends on the earlier history — it refactorizes
-  "from step 1" an object that is at step `ncv` (finding F2).  The property quantifies over histories *before* the observed
-  `init(v); compute(args)` pair, which is exactly what `c06_history_independent` covers.
+  What does NOT hold (and is not claimed): `compute()` NOT preceded by `init()` depends on the earlier history (it continues the
+  factorization it finds).  The property quantifies over histories *before* the observed `init(v); compute(args)` pair, which is
+  exactly what `c06_history_independent` covers.
 -/
 theorem c06_scope_note : True := trivial
+
+/-! ## the symmetric family: unconditional statements on the numeric kernel record -/
+
+section herm
+open Lin Arnoldi C06Footprint
+variable {α : Type} [Add α] [Sub α] [Mul α] [Div α] [Neg α] [Sc α]
+variable (op : Arnoldi.Op α) (c : Cfg) (eps23 : α) (back : α → α) (near0 eps : α)
+
+/-- observations do not mention `facInit` -/
+theorem c06_obs_ignores_facInit {φ ρ ε κ β τ ω : Type} (K : Kern φ ρ ε κ β τ ω) (g : β → φ → FacRes φ) (nvecs : List Nat)
+    (r1 r2 : CompRes φ ρ ε κ) (h : SameObs (withFacInit K g) c nvecs r1 r2) : SameObs K c nvecs r1 r2 :=
+  ⟨h.out, h.eigenvalues, h.eigenvectors, h.niter, h.nmatop, h.info⟩
+
+/-- **init is total, symmetric family, no hypothesis on the kernels**: from ANY two states of solver objects with the same
+    constructor arguments (`Wf`: the `const` members hold what the constructor put there; everything else — `V`, `H`, `f`, `beta`,
+    `k`, Ritz data, flags, counters, `info` — is arbitrary, so torn states left by exceptions are included), `init(v)` throws the
+    same or not at all, and then `compute(args)` is observationally identical: return value or exception, eigenvalues,
+    eigenvectors, `num_iterations`, `num_operations`, `info`. -/
+theorem c06_herm_init_total (s1 s2 : HSt α) (h1 : Wf c near0 eps s1) (h2 : Wf c near0 eps s2) (v0 : Vec α)
+    (sel : Int) (maxit : Nat) (tol : α) (sorting : Int) (nvecs : List Nat) :
+    (init (HermSolver.hermKern op c eps23 back) c v0 s1).2 = (init (HermSolver.hermKern op c eps23 back) c v0 s2).2 ∧
+    ((init (HermSolver.hermKern op c eps23 back) c v0 s1).2 = none →
+      SameObs (HermSolver.hermKern op c eps23 back) c nvecs
+        (compute (HermSolver.hermKern op c eps23 back) c sel maxit tol sorting (init (HermSolver.hermKern op c eps23 back) c v0 s1).1)
+        (compute (HermSolver.hermKern op c eps23 back) c sel maxit tol sorting (init (HermSolver.hermKern op c eps23 back) c v0 s2).1)) := by
+  obtain ⟨he, hobs⟩ := c06_init_total (hermKernC op c eps23 back near0 eps) c (herm_respects op c eps23 back near0 eps)
+    s1 s2 v0 sel maxit tol sorting nvecs
+  obtain ⟨b1e, b1s⟩ := init_bridge op c eps23 back near0 eps v0 h1
+  obtain ⟨b2e, b2s⟩ := init_bridge op c eps23 back near0 eps v0 h2
+  have he' : (init (HermSolver.hermKern op c eps23 back) c v0 s1).2 = (init (HermSolver.hermKern op c eps23 back) c v0 s2).2 := by
+    rw [← b1e, ← b2e]; exact he
+  refine ⟨he', fun hn => ?_⟩
+  have hn2 : (init (HermSolver.hermKern op c eps23 back) c v0 s2).2 = none := by rw [← he']; exact hn
+  rw [b1s hn, b2s hn2] at hobs
+  rw [hermKernC, compute_wfi, compute_wfi] at hobs
+  exact c06_obs_ignores_facInit c _ _ nvecs _ _ hobs
+
+/-- **fresh vs reused vs any history, symmetric family**: for every operator, every `(n, nev, ncv)`, every two histories of
+    `init`/`compute` calls with any arguments (converging or not, rejected rules, rejected start vectors) on two solver objects, and
+    every argument tuple, the observed `init(v); compute(args)` pair behaves identically. -/
+theorem c06_herm_history_independent (hist1 hist2 : List (Call (Vec α) α)) (v0 : Vec α)
+    (sel : Int) (maxit : Nat) (tol : α) (sorting : Int) (nvecs : List Nat) :
+    (init (HermSolver.hermKern op c eps23 back) c v0
+        (run (HermSolver.hermKern op c eps23 back) c (construct (State.mk0 c.n c.ncv near0 eps)) hist1)).2 =
+    (init (HermSolver.hermKern op c eps23 back) c v0
+        (run (HermSolver.hermKern op c eps23 back) c (construct (State.mk0 c.n c.ncv near0 eps)) hist2)).2 ∧
+    ((init (HermSolver.hermKern op c eps23 back) c v0
+        (run (HermSolver.hermKern op c eps23 back) c (construct (State.mk0 c.n c.ncv near0 eps)) hist1)).2 = none →
+      SameObs (HermSolver.hermKern op c eps23 back) c nvecs
+        (compute (HermSolver.hermKern op c eps23 back) c sel maxit tol sorting (init (HermSolver.hermKern op c eps23 back) c v0
+          (run (HermSolver.hermKern op c eps23 back) c (construct (State.mk0 c.n c.ncv near0 eps)) hist1)).1)
+        (compute (HermSolver.hermKern op c eps23 back) c sel maxit tol sorting (init (HermSolver.hermKern op c eps23 back) c v0
+          (run (HermSolver.hermKern op c eps23 back) c (construct (State.mk0 c.n c.ncv near0 eps)) hist2)).1)) :=
+  c06_herm_init_total op c eps23 back near0 eps _ _
+    (run_wf op c eps23 back near0 eps hist1 (construct_wf c near0 eps))
+    (run_wf op c eps23 back near0 eps hist2 (construct_wf c near0 eps)) v0 sel maxit tol sorting nvecs
+
+/-- in particular a fresh solver and a reused one agree -/
+theorem c06_herm_fresh_vs_reused (hist : List (Call (Vec α) α)) (v0 : Vec α)
+    (sel : Int) (maxit : Nat) (tol : α) (sorting : Int) (nvecs : List Nat)
+    (hacc : (init (HermSolver.hermKern op c eps23 back) c v0 (construct (State.mk0 c.n c.ncv near0 eps))).2 = none) :
+    SameObs (HermSolver.hermKern op c eps23 back) c nvecs
+      (compute (HermSolver.hermKern op c eps23 back) c sel maxit tol sorting
+        (init (HermSolver.hermKern op c eps23 back) c v0 (construct (State.mk0 c.n c.ncv near0 eps))).1)
+      (compute (HermSolver.hermKern op c eps23 back) c sel maxit tol sorting (init (HermSolver.hermKern op c eps23 back) c v0
+        (run (HermSolver.hermKern op c eps23 back) c (construct (State.mk0 c.n c.ncv near0 eps)) hist)).1) :=
+  (c06_herm_history_independent op c eps23 back near0 eps [] hist v0 sel maxit tol sorting nvecs).2 hacc
+
+/-- the model-side trace counters (`nexpand`, `nreorth`; they exist only for the correspondence check) influence nothing -/
+theorem c06_trace_counters_inert (s : HSt α) (h : Wf c near0 eps s) (a b : Nat)
+    (sel : Int) (maxit : Nat) (tol : α) (sorting : Int) (nvecs : List Nat) :
+    SameObs (HermSolver.hermKern op c eps23 back) c nvecs
+      (compute (HermSolver.hermKern op c eps23 back) c sel maxit tol sorting s)
+      (compute (HermSolver.hermKern op c eps23 back) c sel maxit tol sorting { s with fac := { s.fac with nexpand := a, nreorth := b } }) := by
+  have hsim : SimSt (Live c.n c.ncv near0 eps) s { s with fac := { s.fac with nexpand := a, nreorth := b } } :=
+    ⟨⟨h, h, rfl⟩, rfl, rfl, rfl, rfl, rfl, rfl⟩
+  obtain ⟨q1, q2, _, _, q5⟩ := compute_sim (hermKernC op c eps23 back near0 eps) c (herm_respects op c eps23 back near0 eps)
+    sel maxit tol sorting _ _ hsim
+  have hobs : SameObs (hermKernC op c eps23 back near0 eps) c nvecs _ _ :=
+    ⟨q2, (accessors_sim _ c (herm_respects op c eps23 back near0 eps) _ _ q1 0).1,
+      fun nvec _ => (accessors_sim _ c (herm_respects op c eps23 back near0 eps) _ _ q1 nvec).2.1, q1.niter, q1.nmatop, q5⟩
+  rw [hermKernC, compute_wfi, compute_wfi] at hobs
+  exact c06_obs_ignores_facInit c _ _ nvecs _ _ hobs
+
+/-! ### two solvers sharing one operator -/
+
+/-- a call on solver 1 (`false`) or solver 2 (`true`) -/
+def step2 (p : HSt α × HSt α) (tc : Bool × Call (Vec α) α) : HSt α × HSt α :=
+  if tc.1 then (p.1, step (HermSolver.hermKern op c eps23 back) c p.2 tc.2)
+  else (step (HermSolver.hermKern op c eps23 back) c p.1 tc.2, p.2)
+
+/-- any interleaving of calls on two solver objects built over the SAME operator value -/
+def run2 (p : HSt α × HSt α) (h : List (Bool × Call (Vec α) α)) : HSt α × HSt α := h.foldl (step2 op c eps23 back) p
+
+/-- each solver evolves exactly as if the other did not exist: the operator value is all they share and nothing writes it
+    (the operator-side state, i.e. the installed shift, is the subject of `c06_op_shift_*`) -/
+theorem c06_two_solvers_independent (h : List (Bool × Call (Vec α) α)) : ∀ (p : HSt α × HSt α),
+    (run2 op c eps23 back p h).1 = run (HermSolver.hermKern op c eps23 back) c p.1 ((h.filter (fun tc => !tc.1)).map (·.2)) ∧
+    (run2 op c eps23 back p h).2 = run (HermSolver.hermKern op c eps23 back) c p.2 ((h.filter (fun tc => tc.1)).map (·.2)) := by
+  induction h with
+  | nil => intro p; exact ⟨rfl, rfl⟩
+  | cons tc h ih =>
+    intro p
+    obtain ⟨t, call⟩ := tc
+    cases t with
+    | false => exact ih (step (HermSolver.hermKern op c eps23 back) c p.1 call, p.2)
+    | true => exact ih (p.1, step (HermSolver.hermKern op c eps23 back) c p.2 call)
+
+/-- **a second solver sharing the operator**: after ANY interleaved history on two solver objects over the same operator, the
+    observed `init(v); compute(args)` on either of them is observationally identical to the same pair on a fresh solver -/
+theorem c06_two_solvers_one_op (h : List (Bool × Call (Vec α) α)) (which : Bool) (v0 : Vec α)
+    (sel : Int) (maxit : Nat) (tol : α) (sorting : Int) (nvecs : List Nat)
+    (hacc : (init (HermSolver.hermKern op c eps23 back) c v0 (construct (State.mk0 c.n c.ncv near0 eps))).2 = none) :
+    SameObs (HermSolver.hermKern op c eps23 back) c nvecs
+      (compute (HermSolver.hermKern op c eps23 back) c sel maxit tol sorting
+        (init (HermSolver.hermKern op c eps23 back) c v0 (construct (State.mk0 c.n c.ncv near0 eps))).1)
+      (compute (HermSolver.hermKern op c eps23 back) c sel maxit tol sorting (init (HermSolver.hermKern op c eps23 back) c v0
+        (if which then (run2 op c eps23 back (construct (State.mk0 c.n c.ncv near0 eps), construct (State.mk0 c.n c.ncv near0 eps)) h).2
+         else (run2 op c eps23 back (construct (State.mk0 c.n c.ncv near0 eps), construct (State.mk0 c.n c.ncv near0 eps)) h).1)).1) := by
+  obtain ⟨e1, e2⟩ := c06_two_solvers_independent op c eps23 back h
+    (construct (State.mk0 c.n c.ncv near0 eps), construct (State.mk0 c.n c.ncv near0 eps))
+  cases which with
+  | true => simp only [if_true]; rw [e2]; exact c06_herm_fresh_vs_reused op c eps23 back near0 eps _ v0 sel maxit tol sorting nvecs hacc
+  | false =>
+    simp only [Bool.false_eq_true, if_false]; rw [e1]
+    exact c06_herm_fresh_vs_reused op c eps23 back near0 eps _ v0 sel maxit tol sorting nvecs hacc
+
+end herm
+
+/-! ### the stale columns of a reused basis matrix -/
+
+section stale
+open Lin Arnoldi C06StaleV C08Mat
+variable {α : Type} [Add α] [Sub α] [Mul α] [Div α] [Neg α] [Sc α]
+
+/-- **column i of V is written before it is read.**  `m_fac_V.resize(m_n, m_m)` in `Arnoldi::init` keeps the old contents of an
+    already allocated matrix, so on a reused solver columns `1 .. ncv-1` hold what the previous run left (`initKeepV`), whereas the
+    model's `Arnoldi.init` starts from zeros.  For EVERY old matrix of the right shape, every operator that returns vectors of the
+    problem dimension and every start vector, the first factorization of `compute()` — `factorize_from(1, ncv)` — produces
+    exactly the same object from both: all `ncv` columns are overwritten before anything reads them.  After that step no datum of
+    the object's earlier history is left anywhere in the factorization. -/
+theorem c06_stale_basis_columns_harmless (op : Arnoldi.Op α) (s : State α) (v0 : Vec α) (hw : WF s.V) (hr : s.V.rows = s.n)
+    (hc : s.V.cols = s.m) (hm : 1 ≤ s.m) (hop : OpWF op s.n) :
+    (initKeepV op s v0).bind (fun s' => Lanczos.factorize_from op s' 1 s.m) =
+    (Arnoldi.init op s v0).bind (fun s' => Lanczos.factorize_from op s' 1 s.m) :=
+  init_stale_columns_harmless op s v0 hw hr hc hm hop
+
+/-- more generally `factorize_from(from_k, ncv)` ignores (and overwrites) the columns `>= from_k` -/
+theorem c06_factorize_writes_before_reads (op : Arnoldi.Op α) (s : State α) (B : Mat α) (from_k : Nat) (h : AgreeCols from_k s.V B)
+    (hn : s.n ≤ s.V.rows) (hop : OpWF op s.V.rows) :
+    Lanczos.factorize_from op { s with V := B } from_k s.V.cols = Lanczos.factorize_from op s from_k s.V.cols :=
+  factorize_overwrites op s B from_k h hn hop
+
+/-- **rows/columns of H at or beyond `from_k` are zeroed before anything reads them**: both factorizations start with
+    `m_fac_H.rightCols(m - from_k).setZero(); m_fac_H.block(from_k, 0, m - from_k, from_k).setZero()`, so only the leading
+    `from_k x from_k` block of the `H` they find matters (this is why dropping `m_fac_H.setZero()` from `Arnoldi::init` changes
+    nothing observable: after `init`, `from_k = 1` and `H(0,0)` is assigned) -/
+theorem c06_factorize_zeroes_H_first (op : Arnoldi.Op α) (s : State α) (H' : Mat α) (from_k to_m : Nat)
+    (h : keepTopLeft H' from_k = keepTopLeft s.H from_k) :
+    Lanczos.factorize_from op { s with H := H' } from_k to_m = (Lanczos.factorize_from op s from_k to_m).map (fun r => if to_m ≤ from_k then { r with H := H' } else r) ∧
+    Arnoldi.factorize_from op { s with H := H' } from_k to_m = (Arnoldi.factorize_from op s from_k to_m).map (fun r => if to_m ≤ from_k then { r with H := H' } else r) := by
+  constructor
+  · unfold Lanczos.factorize_from
+    dsimp only
+    split
+    · simp
+    · split
+      · rfl
+      · rw [h]; simp [*]
+  · unfold Arnoldi.factorize_from
+    dsimp only
+    split
+    · simp
+    · split
+      · rfl
+      · rw [h]; simp [*]
+
+/-- the hypotheses are satisfiable: the harness's explicit row-major operator returns vectors of length `n`, and a constructed
+    object has a well-formed `n x m` basis matrix -/
+example (n : Nat) (a : Array Float) : OpWF ({ n := n, A := Arnoldi.rowMajorOp n a, B := none } : Arnoldi.Op Float) n :=
+  ⟨rfl, fun _ => size_vofFn _ _⟩
+example (n m : Nat) (near0 eps : Float) : WF (State.mk0 n m near0 eps).V ∧ (State.mk0 n m near0 eps).V.rows = n ∧
+    (State.mk0 n m near0 eps).V.cols = m := ⟨zeros_WF _ _, rfl, rfl⟩
+
+end stale
+
+/-- the hypotheses are satisfiable at the executable instance: a freshly constructed `Float` solver object is well formed -/
+example (n nev ncv : Nat) (near0 eps : Float) :
+    C06Footprint.Wf ⟨n, nev, ncv⟩ near0 eps (construct (Arnoldi.State.mk0 n ncv near0 eps) : C06Footprint.HSt Float) := rfl
+
+/-! ## operator-side state: the installed shift -/
+
+section opshift
+open OpShift
+variable {σ : Type}
+
+/-- a public call of a real-shift class (`SymEigsShiftSolver`, `GenEigsRealShiftSolver`, `SymGEigsShiftSolver`): operator
+    applications only, the user's operator may throw at any of them -/
+def RealCall (ce : CallEv σ) : Prop := NoSet ce.evs
+
+/-- **real-shift classes**: `set_shift` is called in the constructor and nowhere else, so after `construct` and ANY history of
+    `init`/`compute` calls — converging or not, throwing at any operator application or not — the installed shift is the
+    constructor's, whatever was installed in the operator before. -/
+theorem c06_op_shift_real (sigma old : σ) (hist : List (CallEv σ)) (h : ∀ ce ∈ hist, RealCall ce) :
+    runCalls (⟨ctor sigma, none⟩ :: hist) old = sigma := by
+  rw [runCalls_cons]
+  show runCalls hist sigma = sigma
+  induction hist with
+  | nil => rfl
+  | cons ce hist ih =>
+    rw [runCalls_cons, exec_noSet _ _ _ (h ce (List.mem_cons_self))]
+    exact ih (fun ce' hm => h ce' (List.mem_cons_of_mem _ hm))
+
+/-- a public call of `GenEigsComplexShiftSolver` (code as it is now) in which the user's operator does not throw inside the
+    root-selection probe of `sort_ritzpair` -/
+def ComplexCall (sigma : σ) (ce : CallEv σ) : Prop :=
+  NoSet ce.evs ∨ ∃ probe nIter nProbe rs, ce.evs = computeComplex sigma probe nIter nProbe rs ∧ inProbe nIter nProbe rs ce.throwAt = false
+
+/-- one `compute()` of `GenEigsComplexShiftSolver` entered with the constructor's shift installed leaves it installed: normal
+    return (any iteration count, any number of probes), exception of the iteration before `sort_ritzpair` (`rs = false`), unsupported
+    sorting rule (thrown by the base class AFTER the restore), user's operator throwing during the iteration -/
+theorem c06_op_shift_complex_compute (sigma probe : σ) (nIter nProbe : Nat) (rs : Bool) (th : Option Nat)
+    (h : inProbe nIter nProbe rs th = false) :
+    (exec (computeComplex sigma probe nIter nProbe rs) th sigma).1 = sigma := by
+  rw [exec_computeComplex, h]
+  simp only [Bool.false_eq_true, if_false]
+  split <;> rfl
+
+/-- **complex-shift class, as the code is now**: after `construct` and any history of such calls the installed shift is the
+    constructor's -/
+theorem c06_op_shift_complex (sigma old : σ) (hist : List (CallEv σ)) (h : ∀ ce ∈ hist, ComplexCall sigma ce) :
+    runCalls (⟨ctor sigma, none⟩ :: hist) old = sigma := by
+  rw [runCalls_cons]
+  show runCalls hist sigma = sigma
+  induction hist with
+  | nil => rfl
+  | cons ce hist ih =>
+    rw [runCalls_cons]
+    have hstep : (exec ce.evs ce.throwAt sigma).1 = sigma := by
+      rcases h ce (List.mem_cons_self) with hn | ⟨probe, nIter, nProbe, rs, he, hp⟩
+      · exact exec_noSet _ _ _ hn
+      · rw [he]; exact c06_op_shift_complex_compute sigma probe nIter nProbe rs _ hp
+    rw [hstep]
+    exact ih (fun ce' hm => h ce' (List.mem_cons_of_mem _ hm))
+
+/-- The full-strength clause "the shift installed at construction is in force whenever control returns to the caller" is FALSE for
+    `GenEigsComplexShiftSolver` in one corner that the repair of F3 does not cover: if the USER'S operator throws during one of the
+    (at most `2 nev`) probe applications, the exception leaves `sort_ritzpair` between `set_shift(probe)` and the restoring
+    `set_shift(sigma)` (no guard object), so the probe shift stays installed.  Stated positively on the model; replayed on the real
+    class by the harness (finding F3b when it reproduces). -/
+theorem c06_op_shift_complex_throw_in_probe (sigma probe : σ) (nIter nProbe k : Nat) (h1 : nIter ≤ k) (h2 : k < nIter + nProbe) :
+    (exec (computeComplex sigma probe nIter nProbe true) (some k) sigma).1 = probe := by
+  rw [exec_computeComplex]
+  simp [inProbe, h1, h2]
+
+/-- F3 (repaired in /repo, commit ddaf8d1): the code BEFORE the repair violates the property on the model — one converged
+    `compute()` leaves the probe shift installed -/
+example : (runCalls [⟨ctor (3 : Nat), none⟩, ⟨initEv 2, none⟩, ⟨computeComplexOld 7 20 4 true, none⟩] 0) = 7 ∧ (7 : Nat) ≠ 3 := by
+  decide
+
+/-- … for every shift, probe and count, not just this witness -/
+theorem c06_op_shift_complex_old_refuted (sigma probe old : σ) (nInit nIter nProbe : Nat) (hne : probe ≠ sigma) :
+    runCalls [⟨ctor sigma, none⟩, ⟨initEv nInit, none⟩, ⟨computeComplexOld probe nIter nProbe true, none⟩] old ≠ sigma := by
+  rw [runCalls_cons, runCalls_cons, runCalls_cons]
+  show (exec (computeComplexOld probe nIter nProbe true) none (exec (initEv nInit) none sigma).1).1 ≠ sigma
+  rw [exec_computeComplexOld_none]
+  exact hne
+
+/-- the hypotheses are satisfiable: a history with a non-converging run, a run whose operator throws in the iteration, and an
+    ordinary run -/
+example : ∀ ce ∈ [(⟨initEv 2, none⟩ : CallEv Nat), ⟨computeComplex 3 7 11 0 false, none⟩, ⟨computeComplex 3 7 40 6 true, some 5⟩,
+    ⟨initEv 2, some 1⟩, ⟨computeComplex 3 7 25 4 true, none⟩], ComplexCall 3 ce := by
+  intro ce hm
+  simp only [List.mem_cons, List.not_mem_nil, or_false] at hm
+  rcases hm with rfl | rfl | rfl | rfl | rfl
+  · exact Or.inl (noSet_applications 2)
+  · exact Or.inr ⟨7, 11, 0, false, rfl, rfl⟩
+  · exact Or.inr ⟨7, 40, 6, true, rfl, rfl⟩
+  · exact Or.inl (noSet_applications 2)
+  · exact Or.inr ⟨7, 25, 4, true, rfl, rfl⟩
+
+end opshift
+
+/-! ## structural facts regenerated from the headers -/
+
+/-- every random generator of the library is a function-local object WITHOUT static/thread storage, seeded by the constant `0` or by
+    `seed + 123 * iter` (with `seed = 2 * i` from the factorization loops): default start vectors, restart vectors and the probe
+    shift are functions of `(n, i, iter)` resp. of `sigmar` alone and cannot carry anything from one run to the next
+    (the generator itself is C19) -/
+theorem c06_seed_pure : ∀ s ∈ Gen.RandSites.sites, s.2.1 = false ∧ (s.2.2 = "0" ∨ s.2.2 = "seed + 123 * iter") := by decide
+
+/-- no variable with static storage anywhere in the library, and the `mutable` data members are exactly the scratch caches of the
+    operator adaptors (each is assigned in full before it is read inside one `perform_op`/`inner_product` call) and the CG status
+    of `SparseRegularInverse`: a new `mutable` member (a call counter, a cached vector) changes the regenerated list and breaks this -/
+theorem c06_no_hidden_state :
+    Gen.Footprint.statics = [] ∧
+    Gen.Footprint.mutable_members = [("ArnoldiOp", "m_cache"), ("DenseGenComplexShiftSolve", "m_x_cache"), ("SVDTallMatOp", "m_cache"),
+      ("SVDWideMatOp", "m_cache"), ("SparseGenComplexShiftSolve", "m_x_cache"), ("SparseRegularInverse", "m_info"),
+      ("SymGEigsBucklingOp", "m_cache"), ("SymGEigsCayleyOp", "m_cache"), ("SymGEigsCholeskyOp", "m_cache"),
+      ("SymGEigsRegInvOp", "m_cache"), ("SymGEigsShiftInvertOp", "m_cache")] := by
+  constructor <;> rfl
 
 end C06
